@@ -58,6 +58,27 @@ def run_native(modname, target, variant, seed, tier, budget, pid=None):
                     violations=[])
 
 
+def ensure_conformance(tier):
+    """axioms, lemma schemas and builtin models against CPython: re-run when the engine or spec sources changed since the
+    last successful run (stamp under build/), and always in the thorough tier"""
+    files = ['pyvc/theory.py', 'pyvc/tys.py', 'pyvc/ops.py', 'pyvc/calls.py', 'pyvc/objects.py', 'pyvc/interp.py',
+             'pyvc/loops.py', 'pyvc/conformance.py', 'pyvc/conf_programs.py', 'specs/prims.py', 'specs/oracles.py']
+    h = hashlib.sha256()
+    for f in files:
+        h.update(open(os.path.join(VERIF, f), 'rb').read())
+    digest = h.hexdigest()
+    stamp = os.path.join(VERIF, 'build', 'conformance.stamp')
+    if tier != 'thorough' and os.path.exists(stamp) and open(stamp).read().strip() == digest:
+        return 0
+    cmd = [sys.executable, os.path.join(VERIF, 'pyvc', 'conformance.py')] + (['--quick'] if tier != 'thorough' else [])
+    r = subprocess.run(cmd, cwd=VERIF)
+    if r.returncode == 0:
+        os.makedirs(os.path.dirname(stamp), exist_ok=True)
+        with open(stamp, 'w') as fh:
+            fh.write(digest)
+    return r.returncode
+
+
 def safe(s):
     return re.sub(r'[^A-Za-z0-9_.-]+', '_', s)[:150]
 
@@ -93,6 +114,10 @@ def run_check(pid, tier, seed, args):
     from pyvc import report
 
     t0 = time.time()
+    conf = ensure_conformance(tier)
+    if conf != 0:
+        print(f"CHECKER-ERROR property={pid} theory/interpreter conformance against CPython failed (see output above)")
+        return 3
     props = load_props()
     if pid not in props:
         print(f"unknown property {pid}")
